@@ -54,6 +54,24 @@ THOROUGH_WS = [cfg_name(h, s) for h in HASHES for s in STONES]
 MAIN = 'k160s5'
 
 
+def shims_dir():
+    """the shim crates point at /repo by absolute path; for another SWV_REPO a rewritten copy is used"""
+    base = os.path.join(VERIF, 'shims')
+    if os.path.realpath(REPO) == '/repo':
+        return base
+    tag = hashlib.sha256(os.path.realpath(REPO).encode()).hexdigest()[:10]
+    dst = os.path.join(CACHE, 'shims-' + tag)
+    for sub in ('proof_parser', 'cli'):
+        os.makedirs(os.path.join(dst, sub), exist_ok=True)
+        for f in ('Cargo.toml', 'Cargo.lock'):
+            with open(os.path.join(base, sub, f)) as fh:
+                txt = fh.read()
+            txt = txt.replace('"/repo/', '"' + os.path.realpath(REPO) + '/')
+            with open(os.path.join(dst, sub, f), 'w') as fh:
+                fh.write(txt)
+    return dst
+
+
 def tree_hash():
     """sha256 over every file of /repo's working tree except target/ and .git/, + the driver."""
     h = hashlib.sha256()
@@ -123,7 +141,7 @@ def extract(config, thash=None, log=None):
             'LD_LIBRARY_PATH': sysroot_lib(),
             'RUSTFLAGS': '-Zmir-opt-level=0 -Awarnings',
             'SWV_OUT': out,
-            'SWV_ROOTS': REPO + ':' + os.path.join(VERIF, 'shims'),
+            'SWV_ROOTS': REPO + ':' + shims_dir() + ':' + os.path.join(VERIF, 'shims'),
             'SWV_RUN_ID': thash,
             'SWV_CONFIG': config,
             'SWV_FULL': 'check_asserts',
@@ -140,7 +158,7 @@ def extract(config, thash=None, log=None):
                    '--features', ','.join(cfg['features'])]
         else:
             env['RUSTC_WRAPPER'] = DRIVER
-            cwd = os.path.join(VERIF, 'shims', cfg['dir'])
+            cwd = os.path.join(shims_dir(), cfg['dir'])
             cmd = ['cargo', '+nightly', '--config', OFFLINE_CFG, 'check', '--lib']
             if cfg['features'] is not None:
                 cmd += ['--no-default-features', '--features', ','.join(cfg['features'])]
